@@ -37,8 +37,9 @@ def run(ctx):
         if i.get("numeric_fail"):
             ctx.violation(f"numeric:{i['expr']}"[:300], {"expression": i["expr"], "witness": i["numeric_fail"]},
                           what=f"{i['numeric_fail'].get('what')}: {i['expr'][:120]} disagrees with matrix arithmetic")
-    nerr = [i for i in items if i["status"] in ("error",)]
-    if len(nerr) > 0.15 * max(1, len(items)):
+    nok = [i for i in items if i["status"] == "ok"]
+    if len(nok) < 0.4 * max(1, len(items)):
+        nerr = [i for i in items if i["status"] == "notex"]
         ctx.broken_obligation("tie", "c03-extraction", json.dumps([(i["expr"], i["detail"]) for i in nerr[:5]])[:1500])
     kinds = {}
     for o in obl:
